@@ -44,8 +44,12 @@ RoundTripHolds == \A k \in Kinds : \A n \in Advertised(k) : FromTransform(k, ToT
 
 ToStep(k, n) == Step("alg_to_transform", "C11", FALSE, [kind |-> k, name |-> n],
                      [panic |-> FALSE, err |-> FALSE, tr |-> ToTransform(k, n), fresh |-> TRUE] @@ AlgInfo(k, n))
+\* (a PRF / integrity / DH / ESN transform that carries an attribute it has no use for: the property demands neither that the
+\*  attribute is ignored nor that the transform is refused -- either the algorithm its identifier names, or "unsupported")
 FromStep(k, t, wire) ==
-  LET n == FromTransform(k, t) IN
+  LET n == FromTransform(k, t)
+      free == k \notin {"encr", "encrk"} /\ t.attr # "none" /\ n # "unsupported" IN
   Step("transform_to_alg", "C11", FALSE, [kind |-> k, tr |-> t, wire |-> wire],
-       [panic |-> FALSE, alg |-> n] @@ (IF n = "unsupported" THEN << >> ELSE AlgInfo(k, n)))
+       IF free THEN [panic |-> FALSE, alg |-> [oneof |-> << n, "unsupported" >>]]
+       ELSE [panic |-> FALSE, alg |-> n] @@ (IF n = "unsupported" THEN << >> ELSE AlgInfo(k, n)))
 =============================================================================
